@@ -32,6 +32,30 @@ R13.5  registration lifetime (the other half of R13.3: a path on which the
        unless that method or its callers handle the tasks (then: undecided,
        ANALYSIS-ERROR).  What add_pilots itself removes before it registers
        the callback does not count.
+
+The chain notification -> Pilot._state -> callbacks -> Task.pilot, without
+which the callback cannot do what R13.1 decides it does:
+
+R13.6  in Pilot._update every path from the entry to an invocation of the
+       pilot specific callbacks writes the state of the notification to the
+       attribute _pilot_state_cb reads (Pilot.state -> self._state); the
+       write may be skipped only along an edge on which that state equals the
+       state the pilot has (a comparison of just these two).  A write that
+       follows the invocation, or one of another value, leaves the callback
+       looking at the previous state: no task is failed.  (A write on some
+       paths only under another condition: undecided, ANALYSIS-ERROR.)
+R13.7  every attribute of the task the callback tests - the pilot binding
+       and the state - is one Task._update copies from the entry of the same
+       name of the state notification whenever the notification carries a
+       value for it (producer / consumer agreement on the key: the loop over
+       the literal key collection is evaluated per key, its guards by
+       presence of the value or by the key).
+R13.8  C14's R14.6, evaluated here: PilotManager._state_sub_cb hands every
+       pilot notification of a bulk message to _update_pilot.
+R13.9  C14's R14.7 for final targets, evaluated here: for a pilot in a
+       non-final state notified DONE / FAILED / CANCELED the last state
+       _update_pilot hands Pilot._update is that state, and Pilot._update
+       accepts every step into it.
 """
 
 import ast
@@ -603,6 +627,18 @@ def r13_1(prog, rep, f, rid='R13.1', out=None):
         for tid, lab in guards(g, node.id, start=start):
             atoms.append((g.nodes[tid].ast, lab == 'T'))
         roles = Roles(f, tvars, pvar, params[0])
+        if out is not None:
+            # what the callback reads of the pilot / of the task: the
+            # producers of these attributes are looked at by R13.6 / R13.7
+            for n in walk(f.node, nested=True):
+                if isinstance(n, ast.Attribute) and \
+                        isinstance(n.value, ast.Name) and \
+                        isinstance(n.ctx, ast.Load):
+                    if n.value.id == pvar and n.attr in ('state', '_state'):
+                        out.setdefault('pilot_reads', set()).add(n.attr)
+                    if n.value.id in tvars and n.attr in (
+                            'pilot', '_pilot', 'state', '_state'):
+                        out.setdefault('task_reads', set()).add(n.attr)
         found = {'binding': [], 'nonfinal': [], 'pilotfinal': [], 'other': [],
                  'member': []}
         for atom, pol in atoms:
@@ -1095,14 +1131,12 @@ def foreign_witness(prog, fn, depth=0, stack=()):
     return None
 
 
-def r13_4(prog, rep, rid='R13.4'):
-    rep.rule(rid, 'Pilot._update: no unprotected call that runs callbacks of '
-             'another registry (application code) can run before an '
-             'invocation of the pilot specific callbacks, which carry the '
-             'task manager\'s _pilot_state_cb', minimum=1)
+def pilot_dispatch(prog):
+    """(Pilot._update, its cfg, statement map, registry attributes, calls of
+    the function body, the calls among them which invoke a value taken out of
+    the registry Pilot.register_callback fills)"""
     reg = prog.method(PILOT[0], PILOT[1], 'register_callback')
     upd = prog.method(PILOT[0], PILOT[1], '_update')
-    rep.saw(upd)
     prm = [x for x in reg.params if x != 'self']
     if not prm:
         raise AnalysisError('anchor %s takes no callback' % reg.where)
@@ -1116,7 +1150,6 @@ def r13_4(prog, rep, rid='R13.4'):
     g = cfg_of(upd)
     smap = I.stmt_node_map(g)
     du = Deps(upd.node, implicit=False)
-    par = _parents(upd.node)
     calls = [c for c in calls_in(upd.node) if id(c) in smap]
     own = [c for c in calls if dynamic_call(upd, c) and
            du.expr_depends(c.func) & registry]
@@ -1124,6 +1157,17 @@ def r13_4(prog, rep, rid='R13.4'):
         raise AnalysisError('UNRECOGNISED-IDIOM %s: no invocation of a value '
                             'taken from %s found' % (upd.where,
                                                      sorted(registry)))
+    return upd, g, smap, registry, calls, own, du
+
+
+def r13_4(prog, rep, rid='R13.4'):
+    rep.rule(rid, 'Pilot._update: no unprotected call that runs callbacks of '
+             'another registry (application code) can run before an '
+             'invocation of the pilot specific callbacks, which carry the '
+             'task manager\'s _pilot_state_cb', minimum=1)
+    upd, g, smap, registry, calls, own, du = pilot_dispatch(prog)
+    rep.saw(upd)
+    par = _parents(upd.node)
     # calls which run foreign callbacks, unprotected
     foreign = []
     for c in calls:
@@ -1924,6 +1968,584 @@ def r13_5(prog, rep, task_attrs, rid='R13.5'):
                   ', '.join(sorted(snames)) or 'none'))
 
 
+# ------------------------------------------------------------------------------
+# R13.6: the callbacks see the state the notification carries
+#
+def backing_attr(prog, cls, name):
+    """the attribute of the object behind `<obj>.<name>`: what the property
+    `name` of the class returns, or the plain attribute itself"""
+    m = prog.find_method(cls, name)
+    if m is None:
+        return name
+    if not any(unparse(d).split('.')[-1] in ('property', 'cached_property')
+               for d in m.node.decorator_list):
+        raise AnalysisError('UNRECOGNISED-IDIOM %s: `.%s` is read as an '
+                            'attribute but is a method' % (m.where, name))
+    rets = {_self_attr(n.value) for n in walk(m.node)
+            if isinstance(n, ast.Return)}
+    if len(rets) != 1 or None in rets:
+        raise AnalysisError('UNRECOGNISED-IDIOM %s: the property does not '
+                            'return one attribute of the object' % m.where)
+    return rets.pop()
+
+
+def attr_stores(f, attr):
+    """[(statement / call, value expression or None)]: the writes of
+    self.<attr> in the body of f"""
+    out = []
+    for n in walk(f.node):
+        if isinstance(n, ast.Assign):
+            for t in n.targets:
+                if _self_attr(t) == attr:
+                    out.append((n, n.value))
+                elif isinstance(t, (ast.Tuple, ast.List)):
+                    hit = [i for i, e in enumerate(t.elts)
+                           if _self_attr(e) == attr]
+                    if not hit:
+                        continue
+                    v = n.value
+                    if isinstance(v, (ast.Tuple, ast.List)) and \
+                            len(v.elts) == len(t.elts) and not any(
+                                isinstance(e, ast.Starred)
+                                for e in v.elts + t.elts):
+                        out.append((n, v.elts[hit[0]]))
+                    else:
+                        out.append((n, None))
+        elif isinstance(n, ast.AnnAssign) and n.value is not None and \
+                _self_attr(n.target) == attr:
+            out.append((n, n.value))
+        elif isinstance(n, ast.AugAssign) and _self_attr(n.target) == attr:
+            out.append((n, None))
+        elif isinstance(n, ast.Call) and dotted(n.func) == 'setattr' and \
+                len(n.args) == 3 and _is_self(n.args[0]) and \
+                isinstance(n.args[1], ast.Constant) and \
+                n.args[1].value == attr:
+            out.append((n, n.args[2]))
+    return out
+
+
+def r13_6(prog, rep, pilot_reads, rid='R13.6'):
+    rep.rule(rid, 'Pilot._update writes the state the notification carries '
+             'to the attribute _pilot_state_cb reads (Pilot.state) on every '
+             'path to an invocation of the pilot specific callbacks - the '
+             'write may only be skipped where that state equals the one the '
+             'pilot already has', minimum=1)
+    pk = prog.cls(*PILOT)
+    upd, g, smap, registry, calls, own, du = pilot_dispatch(prog)
+    rep.saw(upd)
+    params = [p for p in upd.params if p != 'self']
+    if not params:
+        raise AnalysisError('anchor %s takes no notification' % upd.where)
+    src = params[0]
+    attrs = sorted({backing_attr(prog, pk, a)
+                    for a in set(pilot_reads or ()) | {'state'}})
+    readers = {'self.' + a for a in attrs}
+    for name, m in pk.methods.items():
+        try:
+            if backing_attr(prog, pk, name) in attrs:
+                readers.add('self.' + name)
+        except AnalysisError:
+            pass
+
+    def is_target(e):
+        return src in du.expr_depends(e)
+
+    def is_current(e):
+        dep = du.expr_depends(e)
+        return bool(dep & readers) and src not in dep
+
+    def equal_edge(test):
+        """label of the edge the test takes when the notified state equals
+        the state of the pilot, for a comparison of just these two"""
+        pol, hops = True, 0
+        while True:
+            if isinstance(test, ast.UnaryOp) and isinstance(test.op, ast.Not):
+                test, pol = test.operand, not pol
+            elif isinstance(test, ast.Name) and hops < 3 and \
+                    single_assign(upd, test.id) is not None:
+                test, hops = single_assign(upd, test.id), hops + 1
+            else:
+                break
+        if isinstance(test, ast.Compare) and len(test.ops) == 1 and \
+                isinstance(test.ops[0], (ast.Eq, ast.NotEq)):
+            l, r = test.left, test.comparators[0]
+            if is_target(l) and is_current(r) or \
+                    is_current(l) and is_target(r):
+                eq = isinstance(test.ops[0], ast.Eq)
+                return 'T' if eq == pol else 'F'
+        return None
+
+    for attr in attrs:
+        stores = attr_stores(upd, attr)
+        for st, v in stores:
+            if v is None or id(st) not in smap:
+                raise AnalysisError('UNRECOGNISED-IDIOM %s: cannot tell what '
+                                    '`%s` writes to self.%s'
+                                    % (upd.where, short(st, 60), attr))
+        good = [(st, v) for st, v in stores if is_target(v)]
+        ids = {smap[id(st)].id for st, v in good}
+        skip = []
+        for n in g.nodes:
+            if n.kind == 'test':
+                lab = equal_edge(n.ast)
+                if lab:
+                    skip.append((n.id, lab))
+        for o in own:
+            on = smap[id(o)]
+            r = g.reachable(g.entry.id, skip_nodes=ids, skip_edges=skip)
+            if on.id not in r:
+                rep.ok(rid, upd, '%s: every path to `%s` writes the notified '
+                       'state to self.%s first (%d write(s)%s)'
+                       % (upd.qual, short(o, 40), attr, len(good),
+                          ', skipped only where the state is unchanged'
+                          if skip else ''), upd.loc(o))
+                continue
+            before = [st for st, v in good if on.id in g.reachable(
+                [e.dst for e in g.succ[smap[id(st)].id]
+                 if e.label != 'exc' and not e.back], no_back=True)]
+            if before:
+                raise AnalysisError(
+                    'UNRECOGNISED-IDIOM %s: `%s` writes the notified state '
+                    'to self.%s before `%s` on some paths only, and the '
+                    'condition is not a comparison of that state with the '
+                    'state of the pilot: cannot decide whether the callbacks '
+                    'see the new state' % (upd.where, short(before[0], 50),
+                                           attr, short(o, 40)))
+            others = [st for st, v in stores if not is_target(v)]
+            if good:
+                how = 'only writes it afterwards (`%s`, line %d)' % (
+                    short(good[0][0], 40), good[0][0].lineno)
+            elif others:
+                how = 'writes something else there (`%s`)' % short(others[0],
+                                                                    40)
+            else:
+                how = 'never writes it'
+            rep.bad(rid, upd, 'self.%s written before %s' % (attr,
+                                                             short(o, 40)),
+                    '%s: `%s` invokes the pilot specific callbacks (%s), among '
+                    'which TaskManager.add_pilots registered _pilot_state_cb, '
+                    'but no path from the entry of the method writes the '
+                    'state of the notification (`%s`) to self.%s before it - '
+                    'the method %s.  _pilot_state_cb reads that attribute '
+                    '(pilot.state) to decide whether the pilot ended: it '
+                    'still sees the previous, non-final state and fails no '
+                    'task' % (upd.qual, short(o, 40),
+                              ', '.join(sorted(registry)), src, attr, how),
+                    upd.loc(o),
+                    history='pilot p1 is PMGR_ACTIVE, task t1 is bound to it '
+                    'and executing; the notification p1 -> DONE arrives (the '
+                    'runtime is over): _pilot_state_cb runs while p1.state is '
+                    'still PMGR_ACTIVE and skips p1; a DONE pilot is not '
+                    'published again, so there is no second invocation: t1 '
+                    'stays non-final forever (wait_tasks hangs)')
+
+
+# ------------------------------------------------------------------------------
+# R13.7: what the callback tests of a task is what Task._update maintains
+#
+TASK = ('task.py', 'Task')
+
+
+def _str_of(expr, env):
+    """the string an expression denotes under `env` ({loop variable: str})"""
+    if isinstance(expr, ast.Constant):
+        return expr.value if isinstance(expr.value, str) else None
+    if isinstance(expr, ast.Name):
+        return env.get(expr.id)
+    if isinstance(expr, ast.BinOp) and isinstance(expr.op, ast.Mod):
+        l = _str_of(expr.left, env)
+        args = expr.right.elts if isinstance(expr.right, ast.Tuple) \
+            else [expr.right]
+        vals = [_str_of(a, env) for a in args]
+        if l is None or None in vals:
+            return None
+        try:
+            return l % tuple(vals)
+        except (TypeError, ValueError):
+            return None
+    if isinstance(expr, ast.BinOp) and isinstance(expr.op, ast.Add):
+        l, r = _str_of(expr.left, env), _str_of(expr.right, env)
+        return None if l is None or r is None else l + r
+    if isinstance(expr, ast.JoinedStr):
+        out = ''
+        for v in expr.values:
+            if isinstance(v, ast.FormattedValue):
+                if v.format_spec is not None or v.conversion not in (-1, 115):
+                    return None
+                v = v.value
+            s = _str_of(v, env)
+            if s is None:
+                return None
+            out += s
+        return out
+    if isinstance(expr, ast.Call) and dotted(expr.func) == 'str' and \
+            len(expr.args) == 1 and not expr.keywords:
+        return _str_of(expr.args[0], env)
+    if isinstance(expr, ast.Call) and isinstance(expr.func, ast.Attribute) \
+            and expr.func.attr == 'format' and not expr.keywords and \
+            isinstance(expr.func.value, ast.Constant) and \
+            isinstance(expr.func.value.value, str):
+        vals = [_str_of(a, env) for a in expr.args]
+        if None in vals:
+            return None
+        try:
+            return expr.func.value.value.format(*vals)
+        except (IndexError, KeyError, ValueError):
+            return None
+    return None
+
+
+def _loop_envs(prog, f, g, node):
+    """bindings of the variables of the enclosing loops over literal
+    collections of strings: [{variable: value}]"""
+    envs = [{}]
+    for h in node.loops:
+        hn = g.nodes[h]
+        if hn.kind != 'for' or not isinstance(hn.ast.target, ast.Name):
+            continue
+        it = hn.ast.iter
+        hops = 0
+        while isinstance(it, ast.Name) and hops < 3 and \
+                single_assign(f, it.id) is not None:
+            it, hops = single_assign(f, it.id), hops + 1
+        while isinstance(it, ast.Call) and dotted(it.func) in (
+                'list', 'tuple', 'sorted', 'set', 'frozenset', 'iter') and \
+                len(it.args) == 1 and not it.keywords:
+            it = it.args[0]
+        v = prog.fold(f.module, it, f.cls)
+        if v is UNKNOWN or not isinstance(v, (list, tuple, set, frozenset)) \
+                or not all(isinstance(x, str) for x in v):
+            continue
+        envs = [dict(e, **{hn.ast.target.id: x}) for e in envs
+                for x in sorted(v)]
+    return envs
+
+
+def _dict_read(f, g, at, expr, src, env, depth=0):
+    """key (a string) when `expr` is what the notification `src` holds under
+    that key: src[K], src.get(K[, None]), or a local whose definitions
+    reaching the cfg node `at` read one such key"""
+    if depth > 3 or expr is None:
+        return None
+    if isinstance(expr, ast.Subscript) and isinstance(expr.value, ast.Name) \
+            and expr.value.id == src:
+        return _str_of(expr.slice, env)
+    if isinstance(expr, ast.Call) and isinstance(expr.func, ast.Attribute) \
+            and expr.func.attr == 'get' and \
+            isinstance(expr.func.value, ast.Name) and \
+            expr.func.value.id == src and expr.args and not expr.keywords \
+            and (len(expr.args) == 1 or
+                 isinstance(expr.args[1], ast.Constant) and
+                 expr.args[1].value is None):
+        return _str_of(expr.args[0], env)
+    if isinstance(expr, ast.Name) and expr.id != src:
+        defs, undef = defs_reaching(g, expr.id, at)
+        if undef or not defs:
+            return None
+        # (a definition that is no such read - `target = current` for a
+        # task that stays CANCELED - keeps what the object has on that path)
+        keys = set()
+        for d in defs:
+            if d.kind != 'stmt' or not isinstance(d.ast, ast.Assign) or \
+                    len(d.ast.targets) != 1 or \
+                    not isinstance(d.ast.targets[0], ast.Name):
+                return None
+            keys.add(_dict_read(f, g, d.id, d.ast.value, src, env, depth + 1))
+        keys.discard(None)
+        if len(keys) == 1:
+            return keys.pop()
+    return None
+
+
+def _key_test(prog, f, atom, env):
+    """truth of a test on the loop variables for one binding, None: cannot
+    be evaluated"""
+    if isinstance(atom, ast.UnaryOp) and isinstance(atom.op, ast.Not):
+        v = _key_test(prog, f, atom.operand, env)
+        return None if v is None else not v
+    if isinstance(atom, ast.BoolOp):
+        vals = [_key_test(prog, f, v, env) for v in atom.values]
+        if None in vals:
+            return None
+        return all(vals) if isinstance(atom.op, ast.And) else any(vals)
+    if isinstance(atom, ast.Compare) and len(atom.ops) == 1:
+        op = atom.ops[0]
+        l = _str_of(atom.left, env)
+        if l is None:
+            return None
+        rx = atom.comparators[0]
+        r = _str_of(rx, env)
+        if r is None:
+            if isinstance(rx, (ast.List, ast.Tuple, ast.Set)):
+                r = [_str_of(e, env) for e in rx.elts]
+                if None in r:
+                    return None
+            else:
+                r = prog.fold(f.module, rx, f.cls)
+                if r is UNKNOWN:
+                    return None
+        try:
+            if isinstance(op, ast.Eq):
+                return l == r
+            if isinstance(op, ast.NotEq):
+                return l != r
+            if isinstance(op, ast.In):
+                return l in r
+            if isinstance(op, ast.NotIn):
+                return l not in r
+        except TypeError:
+            return None
+    return None
+
+
+def _presence_test(f, g, at, atom, pol, vexpr, src, key, env):
+    """the guard `atom` (taken when `pol`) lets the copy of `key` go ahead
+    exactly when the notification carries a value for it: True; it lets it go
+    ahead only when it carries none: False; not a test of that: None"""
+    if isinstance(atom, ast.UnaryOp) and isinstance(atom.op, ast.Not):
+        return _presence_test(f, g, at, atom.operand, not pol, vexpr, src,
+                              key, env)
+
+    def is_value(e):
+        if isinstance(vexpr, ast.Name) and isinstance(e, ast.Name):
+            return e.id == vexpr.id
+        return _dict_read(f, g, at, e, src, env) == key and \
+            not isinstance(e, ast.Name)
+
+    if is_value(atom):
+        return pol
+    if isinstance(atom, ast.Compare) and len(atom.ops) == 1:
+        op = atom.ops[0]
+        l, r = atom.left, atom.comparators[0]
+        if isinstance(op, (ast.Is, ast.IsNot, ast.Eq, ast.NotEq)):
+            for a, b in ((l, r), (r, l)):
+                if is_value(a) and isinstance(b, ast.Constant) and \
+                        b.value is None:
+                    return isinstance(op, (ast.IsNot, ast.NotEq)) == pol
+        if isinstance(op, (ast.In, ast.NotIn)) and isinstance(r, ast.Name) \
+                and r.id == src and _str_of(l, env) == key:
+            return isinstance(op, ast.In) == pol
+    return None
+
+
+def dict_copies(prog, f):
+    """({(attribute, key)}: the attributes of the object f writes from the
+    entry `key` of the notification it is handed - whenever the notification
+    carries a value for it -, [writes whose attribute or source cannot be
+    named])"""
+    g = cfg_of(f)
+    smap = I.stmt_node_map(g)
+    params = [p for p in f.params if p != 'self']
+    if not params:
+        raise AnalysisError('anchor %s takes no notification' % f.where)
+    src = params[0]
+    writes = []
+    for n in walk(f.node):
+        if isinstance(n, ast.Call) and dotted(n.func) == 'setattr' and \
+                len(n.args) == 3 and _is_self(n.args[0]):
+            writes.append((n, n.args[1], n.args[2]))
+        elif isinstance(n, ast.Assign):
+            for t in n.targets:
+                if _self_attr(t):
+                    writes.append((n, ast.Constant(value=t.attr), n.value))
+    copies, dynamic = set(), []
+    for site, nexpr, vexpr in writes:
+        node = smap.get(id(site))
+        if node is None:
+            continue
+        atoms = [(g.nodes[t].ast, lab == 'T') for t, lab in guards(g, node.id)]
+        for env in _loop_envs(prog, f, g, node):
+            attr = _str_of(nexpr, env)
+            if attr is None:
+                dynamic.append(site)
+                continue
+            key = _dict_read(f, g, node.id, vexpr, src, env)
+            if key is None:
+                continue
+            go = True
+            for atom, pol in atoms:
+                hops = 0
+                while isinstance(atom, ast.Name) and hops < 3 and not (
+                        isinstance(vexpr, ast.Name) and
+                        atom.id == vexpr.id) and \
+                        single_assign(f, atom.id) is not None:
+                    atom, hops = single_assign(f, atom.id), hops + 1
+                p = _presence_test(f, g, node.id, atom, pol, vexpr, src, key,
+                                   env)
+                if p is not None:
+                    go = go and p
+                    continue
+                names = {x.id for x in walk(atom, nested=True)
+                         if isinstance(x, ast.Name)}
+                if names & set(env):
+                    v = _key_test(prog, f, atom, env)
+                    if v is None:
+                        raise AnalysisError(
+                            'UNRECOGNISED-IDIOM %s: `%s` is guarded by `%s`, '
+                            'a test on the key being copied the recogniser '
+                            'cannot evaluate' % (f.where, short(site, 50),
+                                                 short(atom, 60)))
+                    go = go and v == pol
+                elif isinstance(vexpr, ast.Name) and vexpr.id in names or \
+                        src in names and any(
+                            _str_of(x, env) == key
+                            for x in walk(atom, nested=True)
+                            if isinstance(x, (ast.Constant, ast.Name))):
+                    raise AnalysisError(
+                        'UNRECOGNISED-IDIOM %s: `%s` is guarded by `%s`, a '
+                        'test on the value being copied the recogniser does '
+                        'not know' % (f.where, short(site, 50),
+                                      short(atom, 60)))
+            if go:
+                copies.add((attr, key))
+    return copies, dynamic
+
+
+def r13_7(prog, rep, task_reads, rid='R13.7'):
+    rep.rule(rid, 'every attribute of the task _pilot_state_cb tests (its '
+             'pilot binding, its state) is one Task._update copies from the '
+             'entry of the same name of the state notification whenever the '
+             'notification carries it: the manager learns the binding the '
+             'scheduler made and the states the task reached', minimum=2)
+    tk = prog.cls(*TASK)
+    upd = prog.method(TASK[0], TASK[1], '_update')
+    rep.saw(upd)
+    copies, dynamic = dict_copies(prog, upd)
+    rep.stat('task_update_copies', len(copies))
+    what = {'pilot': ('the pilot binding', 'compares with the uid of the '
+                      'ending pilot',
+                      'task t1 is submitted without description.pilot; the '
+                      'tmgr scheduler binds it to p1 (notification {uid: t1, '
+                      'state: TMGR_STAGING_INPUT_PENDING, pilot: p1}); p1 '
+                      'FAILS: t1.pilot still is what the description said '
+                      '(\'\'), the callback takes t1 for a task of another '
+                      'pilot and skips it: t1 stays non-final forever'),
+            'state': ('the state', 'tests for being final',
+                      'task t1 on pilot p1 becomes DONE (notification {uid: '
+                      't1, state: DONE}); p1 ends: t1.state still is not '
+                      'final for the manager, t1 is reported FAILED')}
+    # (the binding and the state are what the property speaks of, whether
+    # or not the callback as it is tests them: R13.1 reports a missing test)
+    need = {}
+    for name in sorted(set(task_reads or ()) | {'pilot', 'state'}):
+        need.setdefault(backing_attr(prog, tk, name), name)
+    for attr, name in sorted(need.items()):
+        key = name.lstrip('_')
+        text, use, hist = what.get(key, ('`%s`' % key, 'tests', ''))
+        if (attr, key) in copies:
+            rep.ok(rid, upd, '%s copies the entry %r of the notification to '
+                   'self.%s, which _pilot_state_cb reads as task.%s'
+                   % (upd.qual, key, attr, name), upd.loc())
+            continue
+        if dynamic:
+            raise AnalysisError(
+                'UNRECOGNISED-IDIOM %s: no copy of the entry %r to self.%s '
+                'is found, but `%s` writes an attribute whose name cannot be '
+                'evaluated' % (upd.where, key, attr, short(dynamic[0], 60)))
+        others = sorted(k for a, k in copies if a == attr)
+        rep.bad(rid, upd, 'copy of %r to self.%s' % (key, attr),
+                '%s does not copy the entry %r of the state notification to '
+                'self.%s (%s; it copies %s), but TaskManager._pilot_state_cb '
+                'reads task.%s - %s of the task, which it %s - and Task.%s '
+                'returns self.%s: what the notifications say about it never '
+                'reaches the object the callback looks at'
+                % (upd.qual, key, attr,
+                   'it is written from the entr%s %s instead'
+                   % ('y' if len(others) == 1 else 'ies', ', '.join(others))
+                   if others else 'nothing in the method writes it from the '
+                   'notification',
+                   ', '.join(sorted(k for a, k in copies)) or 'nothing',
+                   name, text, use, name, attr),
+                upd.loc(), history=hist)
+
+
+# ------------------------------------------------------------------------------
+# R13.8 / R13.9: the final state reaches Pilot._update.  The pilot manager is
+# the only driver of Pilot._update (C14); for this property two of C14's
+# conditions are necessary: every pilot notification of a bulk message is
+# handed to _update_pilot (R14.6), and for a pilot in a non-final state that
+# is notified a final state the last state Pilot._update is handed - and
+# accepts - is that final state (the part of R14.7 about final targets).  The
+# rules are C14's, evaluated under ids of this property.
+#
+def r13_8(prog, rep, rid='R13.8'):
+    from . import c14
+    fn = getattr(c14, 'r14_6', None)
+    if fn is None:
+        raise AnalysisError('%s: rule function c14.r14_6 not found' % rid)
+    fn(prog, rep, rid=rid)
+    rep.rules[rid] = ('[C14 R14.6, necessary here: a final state that is not '
+                      'applied to the pilot fails no task] ' + rep.rules[rid])
+
+
+def r13_9(prog, rep, rid='R13.9'):
+    from . import c14
+    from ..report import Report
+    fn = getattr(c14, 'r14_7', None)
+    if fn is None:
+        raise AnalysisError('%s: rule function c14.r14_7 not found' % rid)
+    rep.rule(rid, '[C14 R14.7 for final targets] for a pilot in any non-final '
+             'state that is notified DONE / FAILED / CANCELED, the last state '
+             'PilotManager._update_pilot hands Pilot._update is that final '
+             'state, and Pilot._update accepts every step into it', minimum=3)
+    final = set(prog.const('states.py', 'FINAL'))
+    tmp = Report(rep.prop, rep.tier, rep.root, quiet=True)
+    fn(prog, tmp, rid=rid)
+    for k, v in tmp.stats.items():
+        rep.stat(k, v)
+    up = prog.method('pilot_manager.py', 'PilotManager', '_update_pilot')
+    # R14.7 evaluates Pilot._update by interpretation and follows plain
+    # assignments to the state attribute only
+    pupd = prog.method(PILOT[0], PILOT[1], '_update')
+    sattr = backing_attr(prog, prog.cls(*PILOT), 'state')
+    plain = all(isinstance(st, ast.Assign) and len(st.targets) == 1 and
+                _self_attr(st.targets[0]) == sattr
+                for st, v in attr_stores(pupd, sattr))
+    bad, masked = {}, set()
+    for fd in tmp.findings:
+        kind, _, tgt = str(fd.construct).partition(':')
+        if kind not in ('replay', 'accept') or tgt not in final:
+            continue
+        if kind == 'accept' and not plain:
+            rep.info(rid, pupd, 'the state attribute self.%s is not written '
+                     'by plain assignments only: the evaluation of %s by '
+                     'R14.7 is not relied on for the target %s (R13.6 '
+                     'decides the write)' % (sattr, pupd.qual, tgt), fd.loc)
+            masked.add((kind, tgt))
+            continue
+        if kind == 'replay':
+            # the pair the finding is about: a pilot that already is final
+            # has no tasks left to fail
+            cur = None
+            words = fd.message.split()
+            if 'state' in words and 'notified' in words:
+                cur = words[words.index('state') + 1]
+            if cur in final:
+                rep.info(rid, up, 'C14 reports for the target %s a pilot '
+                         'that already is %s: not a matter of this property '
+                         '(R14.7 names the nearest pair only: not decided '
+                         'here for this target)' % (tgt, cur), fd.loc)
+                masked.add((kind, tgt))
+                continue
+        bad[(kind, tgt)] = fd
+    for kind in ('replay', 'accept'):
+        for tgt in sorted(final):
+            fd = bad.get((kind, tgt))
+            if (kind, tgt) in masked:
+                continue
+            if fd is not None:
+                rep.bad(rid, fd.where, fd.construct, fd.message, fd.loc,
+                        history=(fd.history or '') + '; the tasks bound to '
+                        'that pilot are never reported FAILED')
+            else:
+                rep.ok(rid, up, '%s: %s' % (
+                    up.qual, 'a pilot in a non-final state that is notified '
+                    '%s is handed to Pilot._update with %s as the last state'
+                    % (tgt, tgt) if kind == 'replay' else
+                    'Pilot._update accepts every step into %s' % tgt),
+                    up.loc())
+
+
 def kwarg_name(regfn):
     """name of the metric parameter of Pilot.register_callback"""
     for p in regfn.params:
@@ -1950,10 +2572,21 @@ def run(prog, rep, tier):
         'the pilot; in Pilot._update no unprotected call that runs '
         'callbacks of another registry (the pilot manager\'s application '
         'callbacks) can run before an invocation of the pilot specific '
-        'callbacks, among which that callback is.')
-    rep.undecided = ('nothing of the statement beyond the delivery of pilot '
-        'state notifications (C14) and the stickiness of final task states '
-        'inside Task._update (C06).  Not decided: isolation between the '
+        'callbacks, among which that callback is; Pilot._update writes the '
+        'notified state to the attribute Pilot.state returns on every path '
+        'to such an invocation (skipped at most where the state is '
+        'unchanged), so the callback sees the final state; Task._update '
+        'copies the entries `pilot` and `state` of a state notification to '
+        'the attributes Task.pilot / Task.state return, so the binding the '
+        'scheduler made is known when the pilot ends; every pilot '
+        'notification of a bulk message reaches _update_pilot, and a final '
+        'state notified for a pilot in any non-final state is the last '
+        'state handed to - and accepted by - Pilot._update (R14.6 and the '
+        'final-target part of R14.7, evaluated here).')
+    rep.undecided = ('the transport of the notifications (pubsub bridges, '
+        'C16) and the stickiness of final task states inside Task._update '
+        '(C06); that TaskManager._update_tasks hands every task '
+        'notification to Task._update (C05/C06).  Not decided: isolation between the '
         'callbacks of the SAME registry - an application callback registered '
         'with pilot.register_callback before tmgr.add_pilots runs before '
         '_pilot_state_cb in Pilot._update and, if it raises, hides it (this '
@@ -1963,8 +2596,17 @@ def run(prog, rep, tier):
         'the metric including the manager\'s, or the pilot emptying its own '
         'registry during its life cycle.')
     rep.assumptions = [
-        'Task.pilot is the binding published by the tmgr scheduler '
-        '(Task._update copies `pilot` from the state notification)',
+        'the binding made by the tmgr scheduler travels as the entry `pilot` '
+        'of the task state notification (the key Task.as_dict publishes it '
+        'under); R13.7 decides that Task._update copies it',
+        'R13.6: the callbacks run in the thread that runs Pilot._update; a '
+        'comparison `notified state ==/!= state of the pilot` is the only '
+        'condition under which the write may be skipped; operands are told '
+        'apart by flow-insensitive dependence on the notification parameter',
+        'R13.7: a write `setattr(self, <name>, v)` / `self.<attr> = v` is a '
+        'copy of the entry K when v is notification[K] / .get(K[, None]) or '
+        'a local some reaching definition of which is; the key collection '
+        'of the loop folds to literal strings',
         'guards are the branch edges every path from the start of one '
         'iteration of the pilot loop to the update must take, plus the '
         'conditions of a filtering comprehension used as the iterable',
@@ -2002,6 +2644,10 @@ def run(prog, rep, tier):
     r13_2(prog, rep)
     r13_4(prog, rep)
     r13_5(prog, rep, shared.get('task_attrs', set()))
+    r13_6(prog, rep, shared.get('pilot_reads', set()))
+    r13_7(prog, rep, shared.get('task_reads', set()))
+    r13_8(prog, rep)
+    r13_9(prog, rep)
     if tier == 'thorough':
         # sweep: the same rule on every other method of the package's manager
         # classes that fails tasks because of a pilot (none today)
@@ -2104,7 +2750,90 @@ _DETACH_CLEAR_ALL = _DETACH + ("\n        # the task manager is not told about t
            "        with self._cb_lock:\n"
            "            self._callbacks[rpc.PILOT_STATE].clear()\n")
 
+# ---- R13.6 .. R13.9: the chain notification -> Pilot._state -> callbacks,
+#      and what Task._update maintains
+_PM = 'pilot_manager.py'
+_TK = 'task.py'
+_ST   = "        self._state = target\n\n"
+_STOP = "        if self._state in rps.FINAL:\n            self._sub.stop()\n"
+_MERGE = "        ru.dict_merge(self._pilot_dict, pilot_dict, ru.OVERWRITE)\n"
+_KEYS = ("        for key in ['state', 'stdout', 'stderr', 'exit_code', 'return_value',\n"
+         "                    'endpoint_fs', 'resource_sandbox', 'session_sandbox',\n"
+         "                    'pilot', 'pilot_sandbox', 'task_sandbox', 'client_sandbox',\n"
+         "                    'exception', 'exception_detail', 'slots', 'partition',\n"
+         "                    'ofiles']:\n\n")
+_COPY = ("            val = task_dict.get(key, None)\n"
+         "            if val is not None:\n"
+         "                setattr(self, \"_%s\" % key, val)\n")
+_UPP  = "                self._update_pilot(thing, publish=False)\n"
+_TRUNC = ("            if target in [rps.CANCELED, rps.FAILED]:\n"
+          "                # don't replay intermediate states\n"
+          "                passed = passed[-1:]\n")
+_THINGS = ("        for thing in things:\n\n"
+           "            if 'type' in thing and thing['type'] == 'pilot':\n\n"
+           "                self._log.debug('state push: %s: %s', thing['uid'],\n"
+           "                                thing['state'])\n\n"
+           "                # we got the state update from the state callback - don't\n"
+           "                # publish it again\n"
+           "                self._update_pilot(thing, publish=False)\n")
+
+
 MUTATIONS = [
+    dict(name='R13.6 seed C13-g3: Pilot._state committed last, after the callbacks',
+         rules=('R13.6',), edits=[
+        (_PL, _ST + _STOP, "        if target in rps.FINAL:\n            self._sub.stop()\n"),
+        (_PL, _PMGR, _PMGR + "\n        self._state = target\n")]),
+    dict(name='R13.6 state written under the lock, after the loop over the pilot callbacks',
+         rules=('R13.6',), edits=[
+        (_PL, _ST + _STOP, "        if target in rps.FINAL:\n            self._sub.stop()\n"),
+        (_PL, _PMGR, "            self._state = target\n\n" + _PMGR)]),
+    dict(name='R13.6 state written inside the loop, after each callback',
+         rules=('R13.6',), edits=[
+        (_PL, _ST + _STOP, "        if target in rps.FINAL:\n            self._sub.stop()\n"),
+        (_PL, "                else      : cb([self])\n\n",
+              "                else      : cb([self])\n\n                self._state = target\n\n")],
+         note='the first callback of the registry sees the old state'),
+    dict(name='R13.6 the old state is written back (current and target mixed up)',
+         rules=('R13.6',), edits=[
+        (_PL, _ST + _STOP, "        self._state = current\n\n        if target in rps.FINAL:\n            self._sub.stop()\n")]),
+    dict(name='R13.7 seed C13-g6: pilot dropped from the keys Task._update copies',
+         rules=('R13.7',), edits=[
+        (_TK, "                    'pilot', 'pilot_sandbox',", "                    'pilot_sandbox',")]),
+    dict(name='R13.7 binding copied from an entry no producer fills (pilot_id)',
+         rules=('R13.7',), edits=[
+        (_TK, "                    'pilot', 'pilot_sandbox',", "                    'pilot_id', 'pilot_sandbox',")]),
+    dict(name='R13.7 the binding made at submission is treated as fixed: key skipped in the loop',
+         rules=('R13.7',), edits=[
+        (_TK, _COPY, "            if key == 'pilot':\n                continue\n\n" + _COPY)]),
+    dict(name='R13.7 state dropped from the copied keys',
+         rules=('R13.7',), edits=[
+        (_TK, "        for key in ['state', 'stdout',", "        for key in ['stdout',")],
+         note='sibling key: the manager never sees a task become final, final tasks are failed again'),
+    dict(name='R13.7 values are copied only when the notification has none (test inverted)',
+         rules=('R13.7',), edits=[
+        (_TK, "            if val is not None:\n                setattr(self, \"_%s\" % key, val)\n",
+              "            if val is None:\n                setattr(self, \"_%s\" % key, val)\n")]),
+    dict(name='R13.8 seed C13-g4: return after the first pilot of a bulk notification',
+         rules=('R13.8',), edits=[
+        (_PM, _UPP, _UPP + "                return True\n")]),
+    dict(name='R13.8 break after the first pilot of a bulk notification',
+         rules=('R13.8',), edits=[
+        (_PM, _UPP, _UPP + "                break\n")]),
+    dict(name='R13.8 only the first thing of the message is looked at',
+         rules=('R13.8',), edits=[
+        (_PM, "        for thing in things:\n\n            if 'type' in thing", "        for thing in things[:1]:\n\n            if 'type' in thing")]),
+    dict(name='R13.9 seed C13-g5: first instead of last passed state kept for FAILED / CANCELED',
+         rules=('R13.9',), edits=[
+        (_PM, "                passed = passed[-1:]\n", "                passed = passed[:1]\n")]),
+    dict(name='R13.9 the final state itself is cut off the replay',
+         rules=('R13.9',), edits=[
+        (_PM, "                passed = passed[-1:]\n", "                passed = passed[:-1]\n")]),
+    dict(name='R13.9 intermediate states dropped for DONE, too (Pilot._update rejects the jump)',
+         rules=('R13.9',), edits=[
+        (_PM, "            if target in [rps.CANCELED, rps.FAILED]:\n", "            if target in rps.FINAL:\n")]),
+    dict(name='R13.9 Pilot._update no longer exempts CANCELED from the single-step test',
+         rules=('R13.9',), edits=[
+        (_PL, "        if target not in [rps.FAILED, rps.CANCELED]:\n", "        if target not in [rps.FAILED]:\n")]),
     dict(name='R13.3 seed C13-c: pilots no longer in self._pilots are skipped',
          rules=('R13.3',), edits=[
         (_TM, _PFIN,
@@ -2307,6 +3036,77 @@ MUTATIONS = [
 ]
 
 SILENT = [
+    # ---- R13.6: rewrites of the state write in Pilot._update
+    dict(name='R13.6 state written only when it changes', edits=[
+        (_PL, _ST, "        if target != current:\n            self._state = target\n\n")]),
+    dict(name='R13.6 state written only when it changes, test hoisted and in else form', edits=[
+        (_PL, _ST, "        unchanged = (current == target)\n        if unchanged:\n            pass\n        else:\n            self._state = target\n\n")]),
+    dict(name='R13.6 state written after the details were merged, just before the callbacks', edits=[
+        (_PL, _ST + _STOP, "        if target in rps.FINAL:\n            self._sub.stop()\n"),
+        (_PL, _MERGE, _MERGE + "\n        self._state = target\n")]),
+    dict(name='R13.6 locals renamed, the written value held by a second local', edits=[
+        (_PL, "        target  = pilot_dict.get('state', self.state)\n", "        target  = pilot_dict.get('state', self.state)\n        new_state = target\n"),
+        (_PL, _ST, "        self._state = new_state\n\n")]),
+    dict(name='R13.6 state written through setattr with a literal name', edits=[
+        (_PL, _ST, "        setattr(self, '_state', target)\n\n")],
+         note='R14.7 does not model setattr: its verdict on Pilot._update is not taken over then'),
+    dict(name='R13.6 state written in both arms of the final test', edits=[
+        (_PL, _ST + _STOP, "        if target in rps.FINAL:\n            self._state = target\n            self._sub.stop()\n        else:\n            self._state = target\n")]),
+    # ---- R13.7: rewrites of the copy loop in Task._update
+    dict(name='R13.7 key collection hoisted into a tuple, guard in early-continue form, name by concatenation', edits=[
+        (_TK, _KEYS + _COPY,
+              "        keys = ('state', 'stdout', 'stderr', 'exit_code', 'return_value',\n"
+              "                'endpoint_fs', 'resource_sandbox', 'session_sandbox',\n"
+              "                'pilot', 'pilot_sandbox', 'task_sandbox', 'client_sandbox',\n"
+              "                'exception', 'exception_detail', 'slots', 'partition',\n"
+              "                'ofiles')\n\n"
+              "        for name in keys:\n\n"
+              "            new = task_dict.get(name)\n"
+              "            if new is None:\n"
+              "                continue\n"
+              "            setattr(self, '_' + name, new)\n")]),
+    dict(name='R13.7 binding and state copied by statements of their own, in front of the loop', edits=[
+        (_TK, _KEYS,
+              "        pid = task_dict.get('pilot')\n"
+              "        if pid is not None:\n"
+              "            self._pilot = pid\n\n"
+              "        self._state = target\n\n"
+              "        for key in ['stdout', 'stderr', 'exit_code', 'return_value',\n"
+              "                    'endpoint_fs', 'resource_sandbox', 'session_sandbox',\n"
+              "                    'pilot_sandbox', 'task_sandbox', 'client_sandbox',\n"
+              "                    'exception', 'exception_detail', 'slots', 'partition',\n"
+              "                    'ofiles']:\n\n")],
+         note='`target` is task_dict[\'state\'] except for a task that stays CANCELED'),
+    dict(name='R13.7 presence test on the notification, value read by subscript, f-string name', edits=[
+        (_TK, _COPY,
+              "            if key in task_dict and task_dict[key] is not None:\n"
+              "                setattr(self, f'_{key}', task_dict[key])\n")]),
+    dict(name='R13.7 copy loop extracted into a helper method', edits=[
+        (_TK, _KEYS + _COPY,
+              "        self._copy_fields(task_dict)\n"),
+        (_TK, "    # --------------------------------------------------------------------------\n    #\n    def as_dict(self):\n        \"\"\"Returns a Python dictionary representation of the object.\"\"\"\n",
+              "    # --------------------------------------------------------------------------\n    #\n"
+              "    def _copy_fields(self, task_dict):\n\n"
+              + _KEYS + _COPY +
+              "\n\n    # --------------------------------------------------------------------------\n    #\n    def as_dict(self):\n        \"\"\"Returns a Python dictionary representation of the object.\"\"\"\n")]),
+    # ---- R13.8 / R13.9: rewrites of the pilot manager's delivery (C14's sites)
+    dict(name='R13.8 non-pilot things skipped with continue', edits=[
+        (_PM, _THINGS,
+              "        for thing in things:\n\n            if thing.get('type') != 'pilot':\n                continue\n\n"
+              "            self._log.debug('state push: %s: %s', thing['uid'], thing['state'])\n"
+              "            self._update_pilot(thing, publish=False)\n")]),
+    dict(name='R13.8 pilot things filtered by a comprehension, then a plain loop', edits=[
+        (_PM, _THINGS,
+              "        pilots = [t for t in things if t.get('type') == 'pilot']\n        for thing in pilots:\n            self._update_pilot(thing, publish=False)\n")]),
+    dict(name='R13.8 termination checked per thing after the update', edits=[
+        (_PM, _UPP, _UPP + "                if self._terminate.is_set():\n                    return False\n")]),
+    dict(name='R13.9 truncation in negated / else form with an explicit index', edits=[
+        (_PM, _TRUNC, "            if target not in [rps.CANCELED, rps.FAILED]:\n                pass\n            else:\n                passed = passed[len(passed) - 1:]\n")]),
+    dict(name='R13.9 truncation as two equality tests, last element rebuilt if there is one', edits=[
+        (_PM, _TRUNC, "            if target == rps.FAILED or target == rps.CANCELED:\n                if passed:\n                    passed = [passed[-1]]\n")]),
+    dict(name='R13.9 truncation test with hoisted container, truncated list under a new name', edits=[
+        (_PM, _TRUNC + "\n            for s in passed:\n",
+              "            abnormal = (rps.FAILED, rps.CANCELED)\n            replay   = passed\n            if target in abnormal:\n                replay = passed[-1:]\n\n            for s in replay:\n")]),
     dict(name='non-final test by value: >= value(DONE)', edits=[
         (_TM, _NFT, "                    if rps._task_state_value(task.state) >= \\\n                       rps._task_state_value(rps.DONE):\n")]),
     dict(name='non-final test by value table equality', edits=[
